@@ -67,8 +67,18 @@ def gen7(n):
     total = 0
     for i in range(n):
         total += (yield g(i + 70)) or 0
+
+def gen8(n):
+    d = {}
+    for i in range(n):
+        d[(yield g(i + 80))] = i
+
+def gen9(n):
+    for i in range(n):
+        def inner(q=(yield g(i + 90))):
+            return q
 '''
-NKINDS = 8
+NKINDS = 10
 # the selector 'generator as ancestor' of each kind (kind 7 captures a variable of the generator, which makes
 # its augmented assignment an instrumented statement)
 ANCESTOR = {k: "gen%d > g > a" % k for k in range(NKINDS)}
@@ -218,7 +228,7 @@ def run(chk):
     drv = chk.open_driver()
     mod = pyprog.make_module(SRC, "verif_c09")
     chk.cov["rule"] = (
-        "histories of 5-15 operations over 1-3 instrumented generators (0-3 yields each; eight generator "
+        "histories of 5-15 operations over 1-3 instrumented generators (0-3 yields each; ten generator "
         "functions calling the same plain function g: plain yield, yield as the value of a binding / chained / "
         "annotated / walrus / augmented assignment, `yield from` a generator and a list, a generator that swallows "
         "GeneratorExit) and overlays carrying g > a and genK > g > a for each kind: "
